@@ -1,6 +1,6 @@
 #!/usr/bin/env python3
 """Property-specific ties beyond the shared differential run."""
-import itertools, os, random, re, json
+import glob, itertools, os, random, re, json
 
 import vlib
 
@@ -286,7 +286,225 @@ def c17_extra(tier, seed, lean):
     return res
 
 
+# --------------------------------------------------------------------------------------------------------------
+# C13: conversion monitor and requirement probes on the real header
+# --------------------------------------------------------------------------------------------------------------
+def c13_extra(tier, seed, lean):
+    res = dict(corr=[], w=[], evaluations=0, cases=0, distinct=0, samples=[], info={})
+    d = os.path.join(vlib.CACHE, 'c13', vlib.sha(vlib.repo_fingerprint(), vlib.file_sha(glob.glob(os.path.join(vlib.VERIF, 'harness', '*.cpp')) + glob.glob(os.path.join(vlib.VERIF, 'harness', 'probes', '*.cpp'))))[:16])
+    os.makedirs(d, exist_ok=True)
+    builds = [('g++', 'c++17'), ('g++', 'c++20')] if tier == 'quick' else [('g++', 'c++11'), ('g++', 'c++14'), ('g++', 'c++17'), ('g++', 'c++20'), ('g++', 'c++2b'), ('clang++', 'c++17'), ('clang++', 'c++20')]
+    inc = '-I' + os.path.join(vlib.REPO, 'source/include')
+    checks = {}
+    for cxx, std in builds:
+        key = cxx.replace('+', 'p') + '_' + std.replace('+', 'p')
+        exe = os.path.join(d, 'convert_' + key)
+        if not os.path.exists(exe):
+            rc, out = vlib.run([cxx, '-std=' + std, '-O1', '-g', '-fsanitize=address,undefined', '-fno-sanitize-recover=all', inc, os.path.join(vlib.VERIF, 'harness', 'convert.cpp'), '-o', exe], timeout=900)
+            if rc != 0:
+                first = [l for l in out.split('\n') if 'error' in l][:2]
+                res['w'].append(dict(msg='C13 a converting range/value that std::vector accepts is rejected by the header (%s %s): %s' % (cxx, std, ' | '.join(first)[:500]),
+                                     op='harness/convert.cpp', config=key, case=[], impl=''))
+                continue
+        rc, out = vlib.run([exe], timeout=300, env=vlib.ASAN_ENV)
+        for l in out.split('\n'):
+            if l.startswith('W! '):
+                res['w'].append(dict(msg=l[3:] + ' (%s %s)' % (cxx, std), op='harness/convert.cpp', config=key, case=[], impl=''))
+            m = re.match(r'done (\d+)', l)
+            if m:
+                checks[key] = int(m.group(1))
+                res['evaluations'] += int(m.group(1))
+        if rc != 0 and key not in checks:
+            res['w'].append(dict(msg='C13 the conversion monitor crashed (%s %s): %s' % (cxx, std, out[-400:]), op='harness/convert.cpp', config=key, case=[], impl=''))
+        # requirement probes
+        for pth in sorted(glob.glob(os.path.join(vlib.VERIF, 'harness', 'probes', '*.cpp'))):
+            name = os.path.basename(pth)[:-4]
+            pexe = os.path.join(d, 'probe_%s_%s' % (name, key))
+            res['cases'] += 1
+            if not os.path.exists(pexe):
+                rc, out = vlib.run([cxx, '-std=' + std, '-O0', inc, pth, '-o', pexe], timeout=600)
+                if rc != 0:
+                    first = [l for l in out.split('\n') if 'error' in l][:1]
+                    res['w'].append(dict(msg='C13 requirement probe %s does not compile (%s %s): the fast path adds a requirement the generic path does not have: %s'
+                                         % (name, cxx, std, ' '.join(first)[:300]), op=name, config=key, case=[], impl=''))
+                    continue
+            rc, out = vlib.run([pexe], timeout=60)
+            if rc != 0:
+                res['w'].append(dict(msg='C13 requirement probe %s gives a wrong result (%s %s)' % (name, cxx, std), op=name, config=key, case=[], impl=''))
+    res['distinct'] = len(checks) + res['cases']
+    res['samples'] = [dict(conversion_checks_per_build=checks)]
+    res['info'] = dict(c13_builds=['%s %s' % b for b in builds], c13_conversion_checks=checks)
+    # prune old dirs
+    root = os.path.join(vlib.CACHE, 'c13')
+    ds = sorted((os.path.getmtime(os.path.join(root, x)), x) for x in os.listdir(root))
+    for _, x in ds[:-2]:
+        import shutil
+        shutil.rmtree(os.path.join(root, x), ignore_errors=True)
+    return res
+
+
+# --------------------------------------------------------------------------------------------------------------
+# C12: narrow size_type allocators at and beyond max_size()
+# --------------------------------------------------------------------------------------------------------------
+def c12_run(tier, seed):
+    cfgs = [vlib.Config('Et', 3, 1, '00000', st='std::uint8_t'), vlib.Config('Tr', 0, 3, '00000', st='std::uint8_t'),
+            vlib.Config('En', 2, 2, '00000', st='std::uint8_t', ndebug=False)]
+    if tier == 'thorough':
+        cfgs += [vlib.Config('Enn', 1, 3, '01010', st='std::uint8_t'), vlib.Config('Tr', 3, 1, '00000', st='std::uint16_t')]
+    return vlib.differential(tier, seed, cfgs=cfgs, case_fn=lambda c, t, sd: gen_cases.narrow_cases(c.N, c.M, c.max_size(), t), label='c12')
+
+
+def c12_extra(tier, seed, lean):
+    res = dict(corr=[], w=[], evaluations=0, cases=0, distinct=0, samples=[], info={})
+    if not lean['driver_ok']:
+        res['corr'].append(dict(why='the Lean driver no longer builds', op='-', config='-', impl='', model='', case=[]))
+        return res
+    core = c12_run(tier, seed)
+    for k, lst in core['dis'].items():
+        ch = k.split('|')[0]
+        if ch in ('val', 'shape', 'exc', 'ledger'):
+            for d in lst:
+                res['corr'].append(dict(d, channel=ch, why='narrow size_type: implementation and model disagree on channel ' + ch))
+    res['w'] += core['w'].get('C12', [])
+    for p in ('C02', 'C04'):
+        for w in core['w'].get(p, []):
+            res['w'].append(dict(w, msg='C12 (narrow size_type) ' + w['msg'][4:]))
+    for c in core['crashes']:
+        res['w'].append(dict(msg='C12 the implementation %s with a narrow size_type: %s' % ('called std::terminate' if c['kind'] == 'terminate' else 'crashed (' + c['kind'] + ')', c['detail'][-400:].replace('\n', ' ')),
+                             op=c['case'][-1][:80] if c['case'] else '-', config=c['config'], case=c['case'], impl=''))
+    for k, e in core.get('build_errors', {}).items():
+        res['corr'].append(dict(why='harness does not compile for ' + k + ': ' + e[-500:], op='-', config=k, impl='', model='', case=[]))
+    res['evaluations'] = core['lines']; res['cases'] = core['cases']; res['distinct'] = core['distinct']
+    res['samples'] = [dict(config=x['config'], case=[l[:120] for l in x['case']], impl=x['impl'][:300], model=x['model'][:300]) for x in core['samples'][:2]]
+    res['info'] = dict(c12_configs=core['configs'], c12_stats={k: v for k, v in core['stats'].items() if k.startswith('throws')})
+    return res
+
+
+# --------------------------------------------------------------------------------------------------------------
+# C20: gdb with the shipped printer; class shape + visualiser paths for the Lean theorems
+# --------------------------------------------------------------------------------------------------------------
+def c20_pre(tier, seed):
+    r, err = tables.gdb_run()
+    if err:
+        return [dict(theorem='(table) class shape', why=err[-800:])]
+    if not r['shapes']:
+        return [dict(theorem='(table) class shape', why='gdb produced no class shapes: ' + r['raw'][-600:])]
+    tables.write_shape_lean(r['shapes'], tables.printer_paths())
+    return []
+
+
+def c20_extra(tier, seed, lean):
+    res = dict(corr=[], w=[], evaluations=0, cases=0, distinct=0, samples=[], info={})
+    builds = [('g++', 'c++17')] if tier == 'quick' else [('g++', 'c++11'), ('g++', 'c++17'), ('g++', 'c++20'), ('clang++', 'c++17')]
+    for cxx, std in builds:
+        r, err = tables.gdb_run(std, cxx)
+        if err:
+            res['corr'].append(dict(why=err[-500:], op='-', config=cxx + std, impl='', model='', case=[]))
+            continue
+        if not r['expect']:
+            res['corr'].append(dict(why='the gdb run produced no output: ' + r['raw'][-400:], op='-', config=cxx + std, impl='', model='', case=[]))
+        for n, want in sorted(r['expect'].items()):
+            got = r['got'].get(n, '<nothing printed>')
+            res['evaluations'] += 1
+            if got != want:
+                res['w'].append(dict(msg='C20 the shipped gdb printer shows "%s" for %s but size()/capacity()/iteration report "%s" (%s %s)' % (got[:200], n, want[:200], cxx, std),
+                                     op=n, config=cxx + std, case=[], impl=got[:300]))
+        res['cases'] += len(r['expect'])
+        res['distinct'] = max(res['distinct'], len(set(r['expect'].values())))
+        if not res['samples']:
+            res['samples'] = [dict(object=n, program_reports=r['expect'][n], gdb_printer_shows=r['got'].get(n)) for n in ('s_heap', 'z_empty', 'it_p') if n in r['expect']]
+    res['info'] = dict(c20_builds=['%s %s' % b for b in builds], visualiser_paths=tables.printer_paths())
+    return res
+
+
+# --------------------------------------------------------------------------------------------------------------
+# C08: generated constexpr programs: compile-time value = run-time value = model digest
+# --------------------------------------------------------------------------------------------------------------
+import c08
+
+
+def c08_extra(tier, seed, lean):
+    res = dict(corr=[], w=[], evaluations=0, cases=0, distinct=0, samples=[], info={})
+    if not lean['driver_ok']:
+        res['corr'].append(dict(why='the Lean driver no longer builds', op='-', config='-', impl='', model='', case=[]))
+        return res
+    nprog = 24 if tier == 'quick' else 400
+    steps = 12 if tier == 'quick' else 16
+    builds = [('g++', 'c++20'), ('clang++', 'c++20')] if tier == 'quick' else [('g++', 'c++20'), ('g++', 'c++2b'), ('clang++', 'c++20')]
+    shapes = [(2, 3), (0, 4)] if tier == 'quick' else [(2, 3), (0, 4), (3, 1), (1, 1)]
+    d = os.path.join(vlib.CACHE, 'c08', vlib.sha(vlib.repo_fingerprint(), open(os.path.join(vlib.VERIF, 'tools', 'c08.py')).read(), tier, seed)[:16])
+    os.makedirs(d, exist_ok=True)
+    cache = os.path.join(d, 'result.json')
+    if os.path.exists(cache):
+        return json.load(open(cache))
+    excluded = []
+    jobs = []
+    rng = random.Random(seed * 1000003 + 8)
+    import concurrent.futures as cf
+    for (N, M) in shapes:
+        progs = [c08.gen_program(rng, N, M, steps) for _ in range(nprog // len(shapes))]
+        digests = []
+        for ops in progs:
+            h, err = c08.model_digest(ops, N, M)
+            digests.append((h, err))
+        for cxx, std in builds:
+            ok, why = toolchain_ok(cxx, std)
+            if not ok:
+                excluded.append(dict(compiler=cxx, std=std, reason=why))
+                continue
+            # batches of 6 programs per TU
+            for bi in range(0, len(progs), 6):
+                jobs.append((N, M, cxx, std, bi, progs[bi:bi + 6], digests[bi:bi + 6]))
+    def run_job(j):
+        N, M, cxx, std, bi, progs, digests = j
+        tag = 'N%d_M%d_%s_%s_%d' % (N, M, cxx.replace('+', 'p'), std.replace('+', 'p'), bi)
+        return j, c08.build_and_run(progs, N, M, cxx, std, d, tag)
+    seen = set()
+    with cf.ThreadPoolExecutor(max_workers=vlib.NCPU) as ex:
+        for j, (out, err) in ex.map(run_job, jobs):
+            N, M, cxx, std, bi, progs, digests = j
+            cfgname = '%s %s N=%d M=%d' % (cxx, std, N, M)
+            if err:
+                first = [l for l in err.split('\n') if 'error' in l][:2]
+                res['w'].append(dict(msg='C08 a sequence of small_vector operations is not a constant expression (%s): %s' % (cfgname, ' | '.join(first)[:400]),
+                                     op='programs %d..%d' % (bi, bi + len(progs) - 1), config=cfgname, case=[' '.join(str(x) for x in op) for op in progs[0]], impl=''))
+                continue
+            for i, ops in enumerate(progs):
+                res['evaluations'] += 1
+                h, merr = digests[i]
+                got = out.get(i)
+                case = [' '.join(str(x) for x in op) for op in ops]
+                seen.add(tuple(case))
+                if got is None:
+                    res['corr'].append(dict(why='program %d produced no output' % (bi + i), op='-', config=cfgname, impl='', model='', case=case))
+                    continue
+                ct_i, rt_i, ct_l, rt_l = got
+                if ct_i != rt_i or ct_l != rt_l:
+                    res['w'].append(dict(msg='C08 constant evaluation and run time disagree (%s): int %d vs %d, literal class %d vs %d' % (cfgname, ct_i, rt_i, ct_l, rt_l),
+                                         op='program %d' % (bi + i), config=cfgname, case=case, impl=''))
+                elif merr or h != rt_i or h != rt_l:
+                    res['corr'].append(dict(why='the model digest differs from the program\'s (%s): model %s, program %d / %d' % (cfgname, h if not merr else merr, rt_i, rt_l),
+                                            op='program %d' % (bi + i), config=cfgname, impl=str(got), model=str(h), case=case))
+                if len(res['samples']) < 2:
+                    res['samples'].append(dict(config=cfgname, ops=case, compile_time_digest=ct_i, run_time_digest=rt_i, model_digest=h))
+    res['cases'] = len(seen)
+    res['distinct'] = len(seen)
+    res['info'] = dict(c08_builds=['%s %s' % b for b in builds], c08_excluded_by_toolchain_gate=excluded, c08_programs=len(seen), c08_steps_per_program=steps, c08_shapes=shapes)
+    json.dump(res, open(cache, 'w'))
+    root = os.path.join(vlib.CACHE, 'c08')
+    ds = sorted((os.path.getmtime(os.path.join(root, x)), x) for x in os.listdir(root) if os.path.isdir(os.path.join(root, x)))
+    import shutil
+    for _, x in ds[:-2]:
+        shutil.rmtree(os.path.join(root, x), ignore_errors=True)
+    return res
+
+
 def register(EXTRA, EXTRA_SEARCH, PRE):
+    EXTRA['C08'] = c08_extra
+    EXTRA['C20'] = c20_extra
+    PRE['C20'] = c20_pre
+    EXTRA['C12'] = c12_extra
+    EXTRA['C13'] = c13_extra
     EXTRA['C17'] = c17_extra
     EXTRA['C18'] = c18_extra
     PRE['C18'] = c18_pre
